@@ -5,6 +5,9 @@ package main
 // that always contains its own declared type, the abstract bases and System names.
 
 import (
+	"google.golang.org/protobuf/reflect/protoregistry"
+	"google.golang.org/protobuf/reflect/protoreflect"
+	"sort"
 	"fmt"
 	"strings"
 
@@ -91,6 +94,35 @@ func runC12(c *Ctx) {
 			}
 			c.Emit(op+" "+facts+" "+ns+" "+t, out, true)
 			c.Count("outcome:" + strings.SplitN(out, ":", 2)[0] + ":" + op)
+		}
+	}
+	// type specifiers of one to four parts over a pool of namespace / type / element / unknown names:
+	// the verdict of Compile (`1 is <parts>`) against the model's resolution
+	{
+		words := []string{"FHIR", "System", "Patient", "Integer", "string", "String", "HumanName", "Quantity", "Foo", "name", "value", "code", "Any", "integer", "Element", "Resource"}
+		emitSpec := func(parts []string) {
+			src := "1 is " + strings.Join(parts, ".")
+			_, err := fhirpath.Compile(src)
+			out := "ok"
+			if err != nil {
+				out = "compile-err"
+			}
+			c.Emit("tspec "+strings.Join(parts, " "), out, len(parts) > 1)
+			c.Count(fmt.Sprintf("tspec-parts:%d", len(parts)))
+		}
+		for _, a := range words {
+			emitSpec([]string{a})
+			for _, b := range words {
+				emitSpec([]string{a, b})
+			}
+		}
+		for i := 0; i < 200; i++ {
+			n := 3 + c.rng.Intn(2)
+			parts := make([]string, n)
+			for k := range parts {
+				parts[k] = Pick(c.rng, words)
+			}
+			emitSpec(parts)
 		}
 	}
 	// a type specifier has one or two parts: anything longer names no type and is rejected by Compile
@@ -206,6 +238,47 @@ func runC12(c *Ctx) {
 				}
 			}
 		}
+	}
+	// every message type of the compiled R4 descriptors, as an empty instance, against the names that tell the kinds
+	// of element apart (code / component / datatype / resource) — forward and then backward, so that no answer can
+	// depend on which type was looked at first (several unrelated types share a short message name, e.g. CodeType)
+	{
+		var mts []protoreflect.MessageType
+		protoregistry.GlobalTypes.RangeMessages(func(mt protoreflect.MessageType) bool {
+			d := mt.Descriptor()
+			n := string(d.Name())
+			if strings.HasPrefix(string(d.FullName()), "google.fhir.r4.core.") && n != "ReferenceId" && n != "Xhtml" && n != "ContainedResource" && d.Fields().Len() > 0 && // (messages without fields only hold the enum of a value set)
+				!(d.Oneofs().Len() > 0 && d.Fields().Len() == d.Oneofs().Get(0).Fields().Len()) {
+				mts = append(mts, mt)
+			}
+			return true
+		})
+		sort.Slice(mts, func(i, j int) bool { return mts[i].Descriptor().FullName() < mts[j].Descriptor().FullName() })
+		shortCount := map[string]int{}
+		for _, mt := range mts {
+			shortCount[string(mt.Descriptor().Name())]++
+		}
+		sweep := func(order []protoreflect.MessageType) {
+			for ti, mt := range order {
+				// quick tier: every type whose short name is shared with another type, the rest on a rotating fifth
+				if !c.thorough && shortCount[string(mt.Descriptor().Name())] < 2 && (ti+int(c.seed))%5 != 0 {
+					continue
+				}
+				m := mt.New().Interface()
+				facts := typeFacts(m)
+				own := strings.Split(facts, ":")[1]
+				for _, t := range []string{"code", "BackboneElement", "Element", "string", "Resource", own, strings.ToLower(own[:1]) + own[1:]} {
+					probe(m, facts, "-", t)
+				}
+				c.Count("schema-type-sweep")
+			}
+		}
+		sweep(mts)
+		rev := make([]protoreflect.MessageType, len(mts))
+		for i, mt := range mts {
+			rev[len(mts)-1-i] = mt
+		}
+		sweep(rev)
 	}
 	// System values from literals and functions
 	sysExprs := []string{"1", "'s'", "true", "1.5", "@2020", "@2020-01", "@2020-01-01T10:00:00Z", "@T10:00", "1 'mg'", "(1 + 1)", "'a'.length()", "(1 = 1)", "'1'.toInteger()", "1.toString()", "now()", "today()"}
